@@ -4,6 +4,7 @@
   `rfl` closes the goal whenever the translation unfolds to the model (the normal case); the fall-backs make the
   proofs survive behaviour-preserving rewrites of the source (reordered xors, …).
 -/
+import Lean
 import Rngs.Model.Xoshiro
 import Rngs.Model.XorShift
 import Rngs.Model.Jitter
@@ -12,6 +13,27 @@ import Rngs.Model.Isaac
 import Rngs.Lib.XorLinear
 import Rngs.Lib.ExtTieBlock
 import Rngs.Lib.ExtTieShapes
+import Rngs.Lib.ExtTieRc
+open Lean Elab Tactic Meta in
+/-- `bounded n => tac`: run `tac` with a budget of `n` thousand heartbeats of its own (not charged to the enclosing
+    declaration); running out of it (or any other failure)
+    is an ordinary failure, so that `first | bounded 100 => rfl | …` can go on to a normalising script instead of ending the
+    whole proof with a timeout.  (Elaboration-time control only: whatever proof comes out is checked by the kernel as always.) -/
+elab "bounded " n:num " => " t:tacticSeq : tactic => do
+  let budget := n.getNat * 1000
+  let s ← saveState
+  let h0 ← IO.getNumHeartbeats
+  let ok ← tryCatchRuntimeEx
+      (do withTheReader Core.Context (fun ctx => { ctx with maxHeartbeats := budget * 1000 }) <|
+            withCurrHeartbeats (evalTactic t)
+          pure true)
+      (fun _ => pure false)
+  -- what the bounded tactic used is not charged to the enclosing declaration (it has its own budget)
+  IO.setNumHeartbeats h0
+  unless ok do
+    s.restore
+    throwError "bounded: the tactic failed or ran out of its budget"
+
 namespace Rngs
 
 /-- step functions (`next_u32`, `next_u64`): definitional unfolding first -/
@@ -59,26 +81,61 @@ macro "ext_tie_lfsr" f:ident : tactic =>
 
 /-! ### rand_hc / rand_isaac (the larger proofs are scripts emitted by tools/extract_units.py; lemmas: ExtTieBlock, ExtTieShapes) -/
 
-/-- `step_p`, `step_q`: the translation (slice views resolved to `self.t` at index + offset) unfolds to the model -/
-macro "ext_tie_hc_step" f:ident : tactic =>
+/-- `f1`, `f2` of HC-128's key expansion: rotations in either direction, xor in any order -/
+macro "ext_tie_hc_fn" f:ident : tactic =>
   `(tactic| first
-    | (intros; rfl)
-    | (intros
-       simp only [$f:ident, Hc128.stepP, Hc128.stepQ, Nat.add_assoc, Nat.add_comm, Nat.add_left_comm, BitVec.add_assoc,
-         BitVec.add_comm, BitVec.add_left_comm, BitVec.xor_comm]))
+    | bounded 20 => rfl
+    | (funext x
+       simp only [$f:ident, Hc128.f1, Hc128.f2, rotl_eq_rotr, Nat.reduceSub, Nat.reduceLT]
+       first | done | ac_rfl))
+
+/-- `step_p`, `step_q`: the translation (slice views resolved to `self.t` at index + offset) unfolds to the model.  Both sides
+    are unfolded to let-free terms; left rotations are written as right rotations, a store split in two
+    (`p[i] = p[i] + a; p[i] = p[i] + b`) is merged (`wr_wr_same`, and `rd (wr t i x) i = x` when `i` is in bounds — out of
+    bounds every store is void), sums are re-associated.  No unbounded `rfl`: a failing script must fail fast. -/
+macro "ext_tie_hc_step_at" f:ident idx:term : tactic =>
+  `(tactic| (simp only [$f:ident, Hc128.stepP, Hc128.stepQ, wr_wr_same, rotl_eq_rotr, Nat.reduceSub, Nat.reduceLT, Nat.add_zero,
+               -- the table index bytes: `x as u8`, `x & 0xff`, `x % 256` all are `x.toNat % 256`
+               BitVec.toNat_setWidth, BitVec.toNat_and, BitVec.toNat_umod, BitVec.toNat_ofNat, Nat.reducePow, Nat.reduceMod, and_255]
+             first
+             | done
+             | (by_cases h : $idx
+                · simp only [rd_wr_same _ _ _ h, BitVec.add_assoc]
+                  first | done | ac_rfl
+                · simp only [wr_of_le _ _ _ (Nat.le_of_not_lt h)]
+                  first | done | ac_rfl)
+             | ac_rfl))
+macro "ext_tie_hc_step" f:ident : tactic =>
+  `(tactic| (intro st i i511 i3 i10 i12
+             first
+             | ext_tie_hc_step_at $f (i < st.t.size)
+             | ext_tie_hc_step_at $f (512 + i < st.t.size)))
 
 /-- ISAAC's nested `rngstep`, `mix` with their `&mut` parameters returned as a tuple -/
 macro "ext_tie_isaac_step" f:ident : tactic =>
   `(tactic| first
-    | (intros; rfl)
+    | bounded 100 => (intros; rfl)
+    | bounded 400 => (intros
+                      unfold $f:ident
+                      simp (config := {zeta := false}) only [Isaac.params32, Isaac.params64]
+                      ac_nf
+                      first | done | bounded 100 => rfl)
     | (intros
-       simp only [$f:ident, Isaac.rngstep, Isaac.ind, Isaac.params32, Isaac.params64, BitVec.add_assoc, BitVec.add_comm,
-         BitVec.add_left_comm, BitVec.xor_comm]))
+       simp only [$f:ident, Isaac.rngstep, Isaac.ind, Isaac.params32, Isaac.params64, BitVec.add_assoc]
+       first | done | ac_rfl))
+
+/-- the hand-written `PartialEq` of the cores: field-wise comparison = the model's `beq` -/
+macro "ext_tie_core_eq" f:ident : tactic =>
+  `(tactic| first
+    | (intros; rfl)
+    | (intro a b
+       simp only [$f:ident, Hc128.Core.beq, Isaac.Core.beq, Bool.and_assoc, Bool.and_comm, Bool.and_left_comm]))
 
 /-- `ind`: `Wrapping >> usize` masks the amount, the model shifts by it: equal for amounts below the width -/
 macro "ext_tie_isaac_ind" f:ident : tactic =>
   `(tactic| (intro mem v amount h
-             simp only [$f:ident, Isaac.ind, Nat.mod_eq_of_lt h]
-             first | rfl | simp only [Isaac.RAND_SIZE, Isaac.RAND_SIZE_LEN, Nat.reducePow]))
+             simp only [$f:ident, Isaac.ind, Nat.mod_eq_of_lt h, Isaac.RAND_SIZE, Isaac.RAND_SIZE_LEN, Nat.reduceSub, Nat.reducePow,
+               and_255]
+             first | done | rfl))
 
 end Rngs
